@@ -171,7 +171,7 @@ def history(rng, tier, refs=False, reads=False, flavour="c10"):
             if what == "typed": o["ty"] = rng.pick(["strings", "string", "int", "duration", "ifaces"])
             if what == "captured":
                 # Unpack (twice or more, into the same target) into a struct capturing the setting as *Config / Config under a policy tag
-                o["ty"] = rng.pick(["", "append", "prepend", "replace", "merge"]) + rng.pick(["", "", "|value"])
+                o["ty"] = rng.pick(["", "append", "prepend", "replace", "merge"]) + rng.pick(["", "", "|rebrand", "|rebrand"]) + rng.pick(["", "", "|value"])
                 o["idx"] = 2 + rng.below(2)
             ops.append(o)
         elif k == "diff":
